@@ -281,6 +281,8 @@ def run(ctx):
     ctx.counted('capture groups on known derivations', evals, len(seen), samples)
     from props import fringe
     fringe.nonascii_case(ctx, 'translate vs match on letters outside ASCII')
+    from props import glue
+    glue.translate_lists(ctx)
     return ctx.finish(RULE)
 
 
